@@ -215,7 +215,7 @@ def elevation(vc):
 
 
 @obligation("C14", "azimuth", ensures=["O-C14-az.range", "O-C14-az.def"], fns=[MS + "getAzimuth", MS + "getElevation"],
-            mode="R", note="modular: wrapAngle2Pi by its proved contract; az is the polar angle of (-x, y): sin(az)*h = y, cos(az)*h = -x")
+            mode="R", ax_lipschitz=True, note="modular: wrapAngle2Pi by its proved contract; az is the polar angle of (-x, y): sin(az)*h = y, cos(az)*h = -x")
 def azimuth(vc):
     vc.stub(MA + "wrapAngle2Pi", common.WRAP2PI)
     r = vc.vec("r", 3, -1e5, 1e5)
